@@ -37,7 +37,10 @@ func (s *Slice[T]) Unshift(elements ...T) int {
 	s.mu.Lock()
 	defer s.mu.Unlock()
 
-	s.elements = append(elements, s.elements...)
+	// build the result in fresh storage: appending to the caller's slice would
+	// write into (and keep) its backing array
+	merged := make([]T, 0, len(elements)+len(s.elements))
+	s.elements = append(append(merged, elements...), s.elements...)
 	return len(s.elements)
 }
 
@@ -129,12 +132,13 @@ func (s *Slice[T]) splice(start, deleteCount int, insert ...T) ([]T, error) {
 	if start < 0 || start > len(s.elements) {
 		return nil, ErrIndexOutOfBounds
 	}
-
 	deleteCount = min(deleteCount, len(s.elements)-start)
 	removed := make([]T, deleteCount)
 	copy(removed, s.elements[start:start+deleteCount])
 
-	s.elements = append(s.elements[:start], append(insert, s.elements[start+deleteCount:]...)...)
+	// the tail is copied before it is overwritten, and the caller's slice is only read
+	tail := append([]T(nil), s.elements[start+deleteCount:]...)
+	s.elements = append(append(s.elements[:start], insert...), tail...)
 	return removed, nil
 }
 
